@@ -40,9 +40,11 @@ def frameOf : Gen.PlanSelectFn.Frame → FrameKind
   | .Join => .join
   | .Data => .data
 
-/-- 16 slots, 9 mask bytes, each an octet: what the Rust types `[Option<Channel>; 16]`, `ChannelMask<9>` guarantee -/
+/-- 16 slots, 9 mask bytes, each an octet, frequencies not negative: what the Rust types `[Option<Channel>; 16]`,
+`ChannelMask<9>`, `u32` guarantee -/
 def PlanWF (p : Gen.PlanSelectFn.DynamicChannelPlan) : Prop :=
-  p.channels.length = 16 ∧ p.channel_mask._0.length = 9 ∧ Octets p.channel_mask._0
+  p.channels.length = 16 ∧ p.channel_mask._0.length = 9 ∧ Octets p.channel_mask._0 ∧
+  ∀ c, some c ∈ p.channels → 0 ≤ c.frequency ∧ ∀ f, c.dl_frequency = some f → 0 ≤ f
 
 /-! ## `Option` / `Except` plumbing -/
 
